@@ -166,6 +166,28 @@ def check_arrays(ctx, values: list[int], bt):
         c[0:0] = objs[:50]
         if [x.ticks for x in c][:50] != values[:50]:
             ctx.violation(path=f"{acls.__name__}.slice-assign", observed="differs", required="values[:50]")
+        # the array itself (and slices / copies of it) as the source of a slice assignment, an extension, an insertion: the records
+        # written are the values the source had when the call was made
+        small = values[:5]
+        if len(small) >= 3:
+            for (i, j) in ((1, 2), (0, 1), (1, 3), (2, 2), (0, 0), (1, 1), (0, len(small)), (2, 3), (1, len(small)), (3, 1)):
+                for src_kind in ("self", "self-slice", "self-reversed", "other-array"):
+                    a2 = acls([cls.from_ticks(t) for t in small])
+                    l2 = list(small)
+                    if src_kind == "self":
+                        src, lsrc = a2, list(l2)
+                    elif src_kind == "self-slice":
+                        src, lsrc = a2[1:], l2[1:]
+                    elif src_kind == "self-reversed":
+                        src, lsrc = a2[::-1], l2[::-1]
+                    else:
+                        src, lsrc = acls([cls.from_ticks(t) for t in small]), list(l2)
+                    r = outcome(lambda: a2.__setitem__(slice(i, j), src))
+                    l2[i:j] = lsrc
+                    got = [x.ticks for x in a2]
+                    if r[0] != "ok" or got != l2 or a2._array.tobytes() != b"".join(struct.pack("<Qq", t % T64, t // T64) for t in l2):
+                        ctx.violation(path=f"{acls.__name__}[{i}:{j}] = <{src_kind}>", observed=show(r)[:100] if r[0] != "ok" else str(got)[:200], required=str(l2)[:200])
+                        break
         for proto in range(2, pickle.HIGHEST_PROTOCOL + 1):
             y = pickle.loads(pickle.dumps(arr, protocol=proto))
             if [x.ticks for x in y] != values or y._array.tobytes() != want:
